@@ -19,19 +19,24 @@ Inductive xgate :=
 | XOp (g : op (T:=T)) (l : option numlit) (ts cs : list N)
 | XMeas (b : basis (T:=T)) (qs : list N).
 
+(* the exporter lists each control qubit once, in order of first occurrence (a repeated control is the same control) *)
+Fixpoint dedup_go (seen l : list N) : list N :=
+  match l with [] => [] | x :: r => if existsb (N.eqb x) seen then dedup_go seen r else x :: dedup_go (x :: seen) r end.
+Definition dedupN (l : list N) : list N := dedup_go [] l.
+
 Definition lower (x : xgate) : option instr :=
   match x with
   | XOp g l ts cs =>
       match g, l with
-      | OpH, None => Some (IGate "h" [] ts cs) | OpX, None => Some (IGate "x" [] ts cs) | OpY, None => Some (IGate "y" [] ts cs)
-      | OpZ, None => Some (IGate "z" [] ts cs) | OpI, None => Some (IGate "id" [] ts cs)
-      | OpS, None => Some (IGate "s" [] ts cs) | OpSdag, None => Some (IGate "sdg" [] ts cs)
-      | OpT, None => Some (IGate "t" [] ts cs) | OpTdag, None => Some (IGate "tdg" [] ts cs)
-      | OpP _ _, Some a => Some (IGate "p" [a] ts cs) | OpRX _ _, Some a => Some (IGate "rx" [a] ts cs)
-      | OpRY _ _, Some a => Some (IGate "ry" [a] ts cs) | OpRZ _ _, Some a => Some (IGate "rz" [a] ts cs)
+      | OpH, None => Some (IGate "h" [] ts (dedupN cs)) | OpX, None => Some (IGate "x" [] ts (dedupN cs)) | OpY, None => Some (IGate "y" [] ts (dedupN cs))
+      | OpZ, None => Some (IGate "z" [] ts (dedupN cs)) | OpI, None => Some (IGate "id" [] ts (dedupN cs))
+      | OpS, None => Some (IGate "s" [] ts (dedupN cs)) | OpSdag, None => Some (IGate "sdg" [] ts (dedupN cs))
+      | OpT, None => Some (IGate "t" [] ts (dedupN cs)) | OpTdag, None => Some (IGate "tdg" [] ts (dedupN cs))
+      | OpP _ _, Some a => Some (IGate "p" [a] ts (dedupN cs)) | OpRX _ _, Some a => Some (IGate "rx" [a] ts (dedupN cs))
+      | OpRY _ _, Some a => Some (IGate "ry" [a] ts (dedupN cs)) | OpRZ _ _, Some a => Some (IGate "rz" [a] ts (dedupN cs))
       | OpCNOT, None => Some (IGate "x" [] ts (firstn 1 cs))           (* "for CNOT, only use the first control" *)
-      | OpToffoli, None => Some (IGate "x" [] ts cs)
-      | OpSWAP, None => Some (IGate "swap" [] ts cs)
+      | OpToffoli, None => Some (IGate "x" [] ts (dedupN cs))
+      | OpSWAP, None => Some (IGate "swap" [] ts (dedupN cs))
       | _, _ => None
       end
   | XMeas BComp qs => Some (IMeas "measure" qs)
